@@ -210,7 +210,7 @@ func targetedSchemaMutation(r *Rng, root map[string]interface{}) string {
 	}
 	fields, _ := idx["fields"].(map[string]interface{})
 	fkeys := mapKeys(fields)
-	switch r.Intn(14) {
+	switch r.Intn(17) {
 	case 0:
 		for _, v := range ids {
 			ids["9999"] = v // the same uuid under two ids
@@ -302,6 +302,47 @@ func targetedSchemaMutation(r *Rng, root map[string]interface{}) string {
 				return "descriptor-type-changed"
 			}
 		}
+	case 14:
+		// one object consistently renumbered to the greatest id there is
+		for id := range ids {
+			ids["18446744073709551615"] = ids[id]
+			delete(ids, id)
+			for _, fk := range fkeys {
+				fm, _ := fields[fk].(map[string]interface{})
+				tuples, _ := fm["index"].([]interface{})
+				for _, t := range tuples {
+					if tt, ok := t.([]interface{}); ok && len(tt) == 2 {
+						if n, ok := tt[1].(json.Number); ok && n.String() == id {
+							tt[1] = json.Number("18446744073709551615")
+						}
+					}
+				}
+			}
+			return "greatest-object-id"
+		}
+	case 15:
+		if descs, ok := root["fields"].(map[string]interface{}); ok && len(descs) > 0 {
+			dk := mapKeys(descs)
+			// prefer a descriptor whose type cannot be indexed
+			var cands []string
+			for _, k := range dk {
+				if d, ok := descs[k].(map[string]interface{}); ok {
+					if t, _ := d["type"].(string); t == "bool" || strings.HasPrefix(t, "[]") || strings.HasPrefix(t, "map") || strings.HasPrefix(t, "*") || t == "interface {}" {
+						cands = append(cands, k)
+					}
+				}
+			}
+			if len(cands) == 0 || r.P(0.3) {
+				cands = dk
+			}
+			if d, ok := descs[cands[r.Intn(len(cands))]].(map[string]interface{}); ok {
+				d["constraints"] = map[string]interface{}{"index": true, "unique": r.Bool()}
+				return "constraint-on-any-descriptor"
+			}
+		}
+	case 16:
+		root["extension"] = pick(r, []interface{}{"/..", "/x", "a/b.json", "..", "", "/", nil, json.Number("3")})
+		return "extension-as-path"
 	case 13:
 		if len(fkeys) > 0 {
 			fm, _ := fields[fkeys[r.Intn(len(fkeys))]].(map[string]interface{})
@@ -591,6 +632,13 @@ func (w *World) battery(uuids []string) {
 	g("FlushAll", func() { w.db.FlushAll(rec()) })
 	g("FlushAllAndCommit", func() { w.db.FlushAllAndCommit(rec()) })
 	g("Commit", func() { w.db.Commit(rec()) })
+	if w.cfg.Async != 0 && !w.failed() && !abortChild {
+		// let the background routine work on whatever was loaded and accepted
+		g("InsertOrUpdate", func() { w.db.InsertOrUpdate(genRec(w.rng, 904, RecOpts{ValidOnly: true, Simple: true})) })
+		for i := 0; i < 3; i++ {
+			clockTick()
+		}
+	}
 	g("DeleteAll", func() { w.db.DeleteAll(rec()) })
 	g("Close", func() { w.db.Close() })
 }
